@@ -121,7 +121,7 @@ def run_crop(src, tgt, out):
         out["crop"] = err(e)
 
 
-def run_gas(src, tgt, out):
+def run_gas(src, tgt, out, c_div=()):
     inst = {"same_crs": bool(src.crs == tgt.crs)}
     out["inst"] = inst
     if inst["same_crs"]:
@@ -138,6 +138,15 @@ def run_gas(src, tgt, out):
         out["res"] = sl4(xs, ys)
     except Exception as e:
         out["res"] = err(e)
+    if c_div:
+        # the same request with shape_divisible_by (only the different-CRS branch honours it)
+        out["div"] = {}
+        for n in c_div:
+            try:
+                xs, ys = src.get_area_slices(tgt, shape_divisible_by=n)
+                out["div"][str(n)] = sl4(xs, ys)
+            except Exception as e:
+                out["div"][str(n)] = err(e)
     try:
         small = src.crop_around(tgt)
         out["crop"] = {"shape": [int(v) for v in small.shape], "extent": [float(v) for v in small.area_extent]}
@@ -224,7 +233,7 @@ for c in req["cases"]:
             if c.get("crop"):
                 run_crop(src, tgt, out)
         elif c["api"] == "gas":
-            run_gas(src, tgt, out)
+            run_gas(src, tgt, out, c.get("divisible") or ())
         elif c["api"] == "swath":
             run_swath(src, tgt, c["chunks"], out)
     except Exception as e:   # construction of the inputs failed: not an observation of the cropping code
